@@ -159,6 +159,11 @@ def step (s : St) (ws : List String) : St × List String :=
   | _ =>
   if s.await then ({ s with await := false, head := "", phase := .done }, ["missing-seen"]) else
   match ws with
+  -- `hcobs::find_stuff_sequence` called directly (track apigaps); no state
+  | ["find", hex] =>
+    match parseHex hex with
+    | some d => (s, ["find=" ++ (match findStuff d with | some i => toString i | none => "none")])
+    | none => (s, ["bad-op"])
   | ["params", "prod"] => startRun s prodParams
   | ["params", a, b] =>
     match a.toNat?, b.toNat? with
